@@ -2,7 +2,7 @@
    PARTIAL: reversal, double reversal and the edge-list constructor are proved for the directed labelled model (every label type);
    getDirectedGraph, undirected-from-directed, their round trip and the constructors of the other classes are tied to the implementation
    and to the spec images (s_direct, s_undirect, folds of the spec insertions) by the correspondence check only. *)
-From BG Require Import Base DirectedModel DirectedProofs Equality ConvProofs.
+From BG Require Import Base DirectedModel DirectedProofs UndirectedModel Equality ConvProofs.
 
 (* getReversedGraph of any graph satisfying the invariant (zero vertices and isolated vertices included) is defined, has the same size,
    contains exactly (j,i) for every edge (i,j), and (j,i) carries the label of (i,j) *)
